@@ -26,8 +26,8 @@ def expSvc (st : Str) (s : Svc) : Exp := ⟨st, s.owner ++ sep ++ s.type, s.owne
 
 /-- 1 for the root device + 2 per device + 1 per service -/
 def expAll (t : DevTree) : List Exp :=
-  expRoot t :: ((allDevices t).flatMap fun d => [expUuid d, expDevType d.type d])
-    ++ (allServices t).map fun s => expSvc s.type s
+  expRoot t :: (((allDevices t).flatMap fun d => [expUuid d, expDevType d.type d])
+    ++ (allServices t).map fun s => expSvc s.type s)
 
 /-- `base:version` with a canonical decimal version -/
 def typeParts (s : Str) : Option (Str × Nat) :=
